@@ -57,6 +57,13 @@ pub proof fn axiom_u10_dequant_distance(q: int, e: int)
     }),
 {}
 
+/// widths of the extra-bit fields (asserted for every code by U10.tables::dequantize_*_all)
+#[verifier::external_body]
+pub proof fn axiom_u10_extra_bounds()
+    ensures forall|q: int| 0 <= q < 29 ==> #[trigger] LENGTH_EXTRA_TABLE[q] <= 5,
+        forall|q: int| 0 <= q < 30 ==> #[trigger] DIST_EXTRA_TABLE[q] <= 13,
+{}
+
 // ---- Huffman codes as a function of the code lengths (A-HUFF) ----
 /// A-HUFF: the (bit-reversed) canonical codes calc_huffman_codes assigns to a vector of code lengths. ASSUMED to be a
 /// function of the lengths; the pairing with the decoding tree is checked by Kani (U10.fixed complete for the fixed
